@@ -67,7 +67,44 @@ def _resolve(P, f, call):
             return P.qual_of(r)
         if r and r[0] == 'class':
             return ('class', r[1], r[2])
+    if isinstance(fn, ast.Attribute) and not (isinstance(fn.value, ast.Name) and fn.value.id in ('self', 'cls')):
+        # `<object>.m(..)` where m is a method that did not exist in the reference tree and no other function of the repository bears that
+        # name: the one new method, whatever the object is (its first parameter is bound to the receiver on expansion)
+        return _unique_new_method(P, fn.attr)
     return None
+
+
+_BASE_NAMES = None
+_BASE = None
+
+
+def _unique_new_method(P, name):
+    global _BASE_NAMES
+    global _BASE
+    if _BASE is None:
+        _BASE = baseline() or set()
+    base = _BASE
+    if not base or name.startswith('__'):
+        return None
+    if _BASE_NAMES is None:
+        _BASE_NAMES = {q.rsplit('.', 1)[-1].strip('<>') for q in base}
+    if name in _BASE_NAMES:
+        return None
+    idx = getattr(P, '_new_method_index', None)
+    if idx is None:
+        idx = {}
+        for q, f_ in P.funcs.items():
+            if f_.cls and f_.parent is None and q not in base and not isinstance(f_.node, ast.Lambda):
+                idx.setdefault(q.rsplit('.', 1)[-1], []).append(q)
+        P._new_method_index = idx
+    cands = idx.get(name, [])
+    if len(cands) != 1:
+        return None
+    fn_ = P.funcs[cands[0]].node
+    deco = [ast.unparse(d) for d in fn_.decorator_list]
+    if deco or not fn_.args.args or fn_.args.args[0].arg != 'self':
+        return None
+    return cands[0]
 
 
 def _params_of(P, target, call):
@@ -1175,10 +1212,15 @@ def normalise_calls(P):
                     continue
                 loads = {x.id for x in ast.walk(f.node) if isinstance(x, ast.Name) and isinstance(x.ctx, ast.Load) and _re.search(r'__h\d+$', x.id)}
                 stores = {x.id for x in ast.walk(f.node) if isinstance(x, ast.Name) and isinstance(x.ctx, (ast.Store, ast.Del))} | \
-                         {a.arg for a in ast.walk(f.node) if isinstance(a, ast.arg)} | {x.name for x in ast.walk(f.node) if isinstance(x, FuncT)}
+                         {a.arg for a in ast.walk(f.node) if isinstance(a, ast.arg)} | {x.name for x in ast.walk(f.node) if isinstance(x, FuncT)} | \
+                         {x.name for x in ast.walk(f.node) if isinstance(x, ast.ExceptHandler) and x.name} | \
+                         {al.asname or al.name for x in ast.walk(f.node) if isinstance(x, (ast.Import, ast.ImportFrom)) for al in x.names}
                 if loads - stores:
-                    from .loader import AnalysisError
-                    raise AnalysisError(f'{q}: helper expansion left {sorted(loads - stores)} unbound (analyser fault, no verdict)')
+                    # an analyser fault in one function must not take down the checks that never look at it: remembered, and raised
+                    # (exit 2, no verdict) as soon as a rule or the escape analysis reads this function
+                    if not hasattr(P, 'expansion_faults'):
+                        P.expansion_faults = {}
+                    P.expansion_faults[q] = f'{q}: helper expansion left {sorted(loads - stores)} unbound (analyser fault, no verdict)'
     return stats
 
 
